@@ -31,6 +31,10 @@ SignedClasses ==
    "createfail",\* contract creation whose init code fails (INVALID opcode / REVERT / gas budget / stack underflow):
                 \* evm.create bumps the creator's nonce BEFORE it takes the snapshot the failure reverts to, so the
                 \* tx is applied (failed receipt, nothing deployed) and its nonce is consumed
+   "createcalls",\* contract creation whose init code makes many value-bearing CALL/CALLCODEs and deploys nothing: every call
+                \* hands its 2300 gas stipend back unused, so evm.Create returns more gas than the tx bought
+                \* (TransitionDb clamps it); an ordinary valid creation
+   "valuecalls",\* the same calls made by the deployed counter contract (message-call branch of TransitionDb)
    "call",      \* calls the contract created by (account 1, nonce 0): cnt := cnt+1, one log
    "revert",    \* same target, REVERT
    "oog",       \* same target, exceeds the EVM gas budget
